@@ -167,7 +167,7 @@ HARNESSES += [
 
 HARNESSES += [
     {"name": "find_earliest_deadline", "props": ["C08"], "src": "h_poll.c", "contracts": ["public.h"],
-     "includes": ["reproc.c"], "enforce": "find_earliest_deadline", "replace": ["now"],
+     "includes": ["reproc.c", "clock.posix.c"], "enforce": "find_earliest_deadline",
      "defs": {"POLL_find_earliest_deadline": None, "VERIF_NSRC": "3"}, "unwind": 5,
      "bounded": "exactly 3 poll sources, any of which may be process-less (so 0..3 effective sources in any order); loop fully unrolled; everything else symbolic",
      "what": "find_earliest_deadline against absolute deadlines: sources in any order, process-less sources and "
@@ -177,16 +177,19 @@ HARNESSES += [
 
 def poll_h(n, thorough_only=False):
     return {"name": "reproc_poll_%d" % n, "props": ["C09", "C08", "C14", "C05", "C04"], "src": "h_poll.c",
-            "contracts": ["public.h"], "includes": ["reproc.c"], "enforce": "reproc_poll", "rec": True, "replace": ["now"],
+            "contracts": ["public.h"], "includes": ["reproc.c", "clock.posix.c"], "light": True, "light_fn": "reproc_poll",
             "defs": {"POLL_reproc_poll": None, "VERIF_NSRC": str(n)}, "unwind": 4 * n + 2,
             "timeout": 1500, "timeout_thorough": 7200, "thorough_only": thorough_only,
             "bounded": "exactly %d poll source(s); loops over sources[] and pipes[] fully unrolled; interests, timeout, "
                        "deadlines, pipe states, handle sharing, kernel answers symbolic" % n,
             "what": "reproc_poll with %d source(s) (find_earliest_deadline, expiry, contains_valid_pipe, pipe_poll inlined; now "
-                    "by contract; self-recursive call handled by --enforce-contract-rec)" % n}
+                    "by contract); the ensures clauses of reproc_poll's contract are asserted after the call by plain CBMC "
+                    "('light' enforcement: DFCC's write-set instrumentation of this function took > 25 min), the frame is "
+                    "asserted explicitly; the self-recursive call is unreachable on POSIX (child.out/err are always invalid) "
+                    "and cut by the unwinding bound with its unwinding assertion on" % n}
 
 
-HARNESSES += [poll_h(1), poll_h(2), poll_h(3, thorough_only=True)]
+HARNESSES += [poll_h(1), poll_h(2), poll_h(3), poll_h(4, thorough_only=True)]
 
 
 HARNESSES += [
